@@ -85,3 +85,26 @@ gpanic! { fn c16_clone_inside_borrow_with_arc_overflow_aborts() {
     a.borrow_arc().with_arc(|t| { let c = t.clone(); core::mem::forget(c); });
     core::mem::forget(a);
 } }
+
+// @h props=C14 fuc=ArcBorrow::eq note="statement of C14: comparing ArcBorrows gives the same answer as comparing the values they hold"
+gproof! { fn c14_arcborrow_eq_by_value() {
+    let (x, y): (u8, u8) = (kani::any(), kani::any());
+    let (a, b) = (Arc::new(x), Arc::new(y));
+    let (ba, bb) = (a.borrow_arc(), b.borrow_arc());
+    assert!((ba == bb) == (x == y), "F2 ArcBorrow == is not value equality");
+    assert!((ba != bb) == (x != y), "F2 ArcBorrow != is not value inequality");
+    core::mem::forget(a);
+    core::mem::forget(b);
+} }
+
+// @h props=C14 fuc=ArcBorrow::fmt note="statement of C14: formatting an ArcBorrow formats the value it holds"
+gproof! { fn c14_arcborrow_debug_by_value() {
+    use crate::vrt::{Ip, OP_DEBUG};
+    let a = Arc::new(Ip(kani::any()));
+    let b = a.borrow_arc();
+    unsafe { vrt::IP_FMT_OK = kani::any(); }
+    let ok = vrt::debug_ok(&b);
+    assert!(vrt::ip_calls(OP_DEBUG) == 1 && vrt::ip_args(data(&a), unsafe { vrt::FMT_ADDR }), "F2 ArcBorrow Debug does not format the value");
+    assert!(ok == unsafe { vrt::IP_FMT_OK }, "F2 ArcBorrow Debug does not return the value's result");
+    core::mem::forget(a);
+} }
